@@ -401,7 +401,7 @@ def run_c18(ck):
             if plain:
                 runs.append(soak(ck, plain, "plain-aimed", ck.seed + 4, 16, 32, 6 if quick else 60, mix=mix, order="after"))
     found = 0
-    total_runs, kinds_all, jobs_all = 0, {}, 0
+    total_runs, kinds_all, jobs_all = 0, {}, set()
     for r in runs:
         found += report_runtime(ck, r)
         clean = not r["fails"] and not r["races"] and not r["crash"] and r["rc"] == 0
@@ -412,7 +412,7 @@ def run_c18(ck):
             name += "; race detector silent"
         ck.oblige(name, clean, ("harness job not deterministic on its own (machinery): " if nd else "") + r["out"][-1500:])
         total_runs += r["summ"].get("runs", 0)
-        jobs_all += r["summ"].get("jobs", 0)
+        jobs_all.update(x for x in r["mix"].split(",") if x)
         for k, v in r["kinds"].items():
             kinds_all[k] = kinds_all.get(k, 0) + v
     if runs and runs[0]["shown"]:
@@ -432,7 +432,7 @@ def run_c18(ck):
         ck.cov["note"] = "runtime counterexample although the static premise checked: the may-write analysis (or its allow-list) missed a writer"
     ck.cov.update({
         "evaluations": total_runs + summ.get("functions", 0),
-        "distinct_nontrivial": jobs_all,
+        "distinct_nontrivial": len(jobs_all),
         "rule": "evaluations = concurrent job executions compared with their sequential result (both builds) + functions analysed statically; "
                 "distinct_nontrivial = distinct (kind, seed) jobs of this run, each creating its own instances and producing >= 4 observations "
                 "(System with/without Logger: assembled program, RunUntil, registers, WRAM, listing, trace; cpu65/cpualt: 1500 disassembled steps of seeded byte soup "
